@@ -114,6 +114,15 @@ def families(tier):
         for order in (names, names[::-1]):
             out.append(dict(prop='C08', family='c08.back_to_a_bus_in_path', id=f'c08/back-{back}-s{int(slowB)}-f{int(fwd_first)}-{redisp}-o{"".join(order)}', cfg=cfg, params=dict(shape='back', awaiter='main'),
                             scn=dict(buses={b: {} for b in names}, order=order, handlers=hs, main=main, actors=[], forwards=[('A', 'B'), ('B', 'C')], fwd_first=fwd_first, settle=3.0)))
+    # the awaited (and forwarded) child is an instance of a falsy event class (an empty batch): an await on it still returns only when it is complete everywhere
+    for fwd, heB in itertools.product((True, False), ('pause', 'ret')):
+        hs = [dict(bus='A', pat='P', name='hp', prog=[('disp', 'A', 'E', 'await'), ('pause',), ('ret', 1)]), dict(bus='A', pat='E', name='heA', prog=[('ret', 'a')]),
+              dict(bus='B', pat='E', name='heB', prog=[('pause',), ('ret', 'b')] if heB == 'pause' else [('ret', 'b')]), dict(bus='A', pat='X', name='hx', prog=[('ret', 0)]),
+              dict(bus='B', pat='P', name='hpB', prog=[('ret', 2)])]
+        main = [('disp', 'A', 'P', 'ff'), ('disp', 'A', 'X', 'ff'), ('pause',)]
+        for order in (['A', 'B'], ['B', 'A']):
+            out.append(dict(prop='C08', family='c08.falsy_child_event', id=f'c08/falsy-f{int(fwd)}-{heB}-o{"".join(order)}', cfg=cfg, params=dict(shape='falsy', awaiter='handler'),
+                            scn=dict(buses={'A': {}, 'B': {}}, order=order, handlers=hs, main=main, actors=[], forwards=[('A', 'B')] if fwd else [], settle=3.0)))
     # two sibling handlers on a parallel_handlers bus await the SAME child (one dispatched it, the other got hold of the object): the one that does not
     # get to process it inline must still not come back from its await before the child is complete
     for cb, k, chc in itertools.product('AB', (0, 1), ('pause', 'pause_pause')):
